@@ -18,7 +18,7 @@ import (
 
 func init() {
 	register(&Prop{
-		ID: "C19", Level: "fault_enumeration", Quick: 80 * 24, Thorough: 2500 * 24,
+		ID: "C19", Level: "fault_enumeration", Quick: 80 * 33, Thorough: 2500 * 33,
 		Rule:        "trial = (command form, generated valid input); every Write call index k=1..W+1 of the fault-free run x {write_error_once, write_error_sticky, short_write} (+ every Create for toPairAlign directory output) is enumerated, each under several seeded schedules; a trial is non-trivial if at least one injected fault actually fired; distinct = distinct (input, options)",
 		Gen:         genC19,
 		Check:       checkC19,
@@ -30,13 +30,15 @@ func init() {
 }
 
 // the command forms C19 ranges over: the library entry points, and the real command line writing to --outfile
-var c19Forms = append(append([]string{}, allCmds...), "cli-o:toma", "cli-o:variants", "cli-o:samvariants", "cli-o:snps", "cli-o:snps-agg", "cli-o:closest", "cli-o:closestn", "cli-o:updownlist", "cli-o:topranking", "indels", "cli:indels")
+var c19Forms = append(append([]string{}, allCmds...), "cli-o:toma", "cli-o:variants", "cli-o:samvariants", "cli-o:snps", "cli-o:snps-agg", "cli-o:closest", "cli-o:closestn", "cli-o:updownlist", "cli-o:topranking", "indels", "cli:indels",
+	// ... and writing to standard output (no --outfile)
+	"cli:toma", "cli:topa-stdout", "cli:variants", "cli:samvariants", "cli:snps", "cli:closest", "cli:closestn", "cli:updownlist", "cli:topranking")
 
 func genC19(r *Rand, tier string, ord int) *Trial {
 	form := c19Forms[ord%len(c19Forms)]
 	var c *Case
-	if form == "cli:indels" {
-		cc, ok := cliCase(genCmdCase(r, "indels", caseSize{}))
+	if strings.HasPrefix(form, "cli:") {
+		cc, ok := cliCase(genCmdCase(r, strings.TrimPrefix(form, "cli:"), caseSize{}))
 		if !ok {
 			return nil
 		}
